@@ -730,7 +730,9 @@ def vacuum_resurrection(iops):
     """finding F-C09-1 as the harness observes it at a vacuum (VF0 = a connection opened just before
     the vacuum, VF = one opened just after, VB = the vacuuming connection): every row that differs
     was invisible before, to both, and is visible afterwards (its delete marker was purged while an
-    older write of it is still in a version under current/).  -> (segment index, resurrected keys)"""
+    older write of it is still in a version under current/).  -> [(segment index, resurrected keys)]
+    for every vacuum of the history that has this shape"""
+    out = []
     for j, toks in enumerate(iops):
         if 'VB' not in toks or 'VA' not in toks or 'VF0' not in toks or 'VF' not in toks:
             continue
@@ -741,20 +743,22 @@ def vacuum_resurrection(iops):
             continue
         r0, r1, rb = rows_by_key(fresh0), rows_by_key(fresh), rows_by_key(before)
         if r0 is None or r1 is None or rb is None:
-            return None
+            continue
         diff = [k for k in set(r0) | set(r1) if r0.get(k) != r1.get(k)]
         if diff and all(k not in r0 and k in r1 and k not in rb for k in diff):
-            return j, set(diff)
-        return None
-    return None
+            out.append((j, set(diff)))
+    return out
 
 def resurrection_excuse(case, vac, j, got, want):
     """after a vacuum with the shape of finding F-C09-1 (see vacuum_resurrection): the first
     divergence from the native table concerns only the resurrected keys — a SELECT that returns the
     expected rows plus resurrected ones, or a statement addressing a resurrected key"""
-    if vac is None or j <= vac[0]:
+    keys = set()
+    for idx, ks in (vac or []):
+        if idx < j:
+            keys |= ks
+    if not keys:
         return False
-    keys = vac[1]
     got, want = mask_empty_text(got), mask_empty_text(want)
     if got[:1] == want[:1] and got[:1] and got[0] in ('SA', 'SD', 'SO') and got[1:2] == ['ok'] and want[1:2] == ['ok']:
         gr, wr = rows_by_key(got[1:]), rows_by_key(want[1:])
